@@ -133,3 +133,23 @@ def run_tests(root, info, test_name, env_extra, race=False, timeout=1800, extra_
                 findings.append(d)
     races = len(RACE_RE.findall(r.out + r.err))
     return r, findings, summary, races
+
+
+CRASH_RE = re.compile(r"^(panic: |fatal error: |\[signal SIG)", re.M)
+GEN_FRAME_RE = re.compile(r"\b(mock_\w+\.go):(\d+)")
+
+
+def crash_in_generated(r):
+    """the test binary was built and then died (unrecovered panic in a goroutine, runtime fatal error such as 'concurrent map writes' or
+    'all goroutines are asleep'): returns a description if a frame of a generated file is on one of the printed stacks, else None.
+    A build failure is not a crash."""
+    text = r.out + "\n" + r.err
+    if "[build failed]" in text or not CRASH_RE.search(text):
+        return None
+    m = CRASH_RE.search(text)
+    tail = text[m.start():]
+    g = GEN_FRAME_RE.search(tail)
+    if not g:
+        return None
+    first = tail.splitlines()[0][:200]
+    return {"crash": first, "generated_frame": "%s:%s" % (g.group(1), g.group(2)), "trace_head": tail[:1800]}
